@@ -184,6 +184,11 @@ ext("C15", "; two publishes racing for one id", " Publish world race step: two p
 ext("C05", "; store failure and retry on the Pull API", " Pull world faultretry: a nack / ack / dead-letter whose store call fails once is not answered 2xx and changes nothing; the retry settles a lease that is still current (the message comes back with its delay).")
 ext("C04", "; store failure and retry on the Pull API", " Pull world faultretry as in C05: the retry of a call whose store operation failed is judged like any call (no success from the idempotency window for something that never happened).")
 ext("C18", "", " The os reroute follows calls: file operations moved into helpers reachable from the rewritten functions stay visible to the simulated file system.")
+ext("C02", "; concurrent callers", " W-conc (two callers, one and two handles, statement-level interleaving, crashes): results and final rows equal some sequential order of the calls - no interleaving duplicates, revives or illegally moves a message.")
+ext("C11", "; refused reloads", " reloadfail world: after a refused reload whose new configuration changes token lists the Pull and Admin APIs honour exactly the running configuration's lists.")
+ext("C20", "; failed config writes", " W-file (exhaustive error injection at every file-system call of the config-writing primitive): a write that reported failure leaves nothing but the config file in its directory.")
+ext("C16", "", " Resolver outages inside an answer sequence: a check whose lookup fails sends nothing, whatever an earlier lookup of the same host said.")
+ext("C17", "", " Validity bounds carry sub-second parts and the clock starts off the whole second, so attempts fall on both sides of a bound within one second.")
 
 NA = {
  "C19": "config Parse/Format/Compile are pure functions of the text: no schedule, clock, I/O or fault for a simulation to decide (DESIGN.md §5)",
